@@ -311,7 +311,10 @@ class TopLevelVisitor(ast.NodeVisitor):
                         node.test.left.id == '__name__',
                         node.test.comparators[0].value == '__main__',
                     ]):
-                        # Ignore main block
+                        # Ignore main block (but not its else branch, which
+                        # does run when the module is imported)
+                        for child in node.orelse:
+                            self.visit(child)
                         return
                 else:
                     if all([
@@ -319,7 +322,9 @@ class TopLevelVisitor(ast.NodeVisitor):
                         node.test.left.id == '__name__',
                         node.test.comparators[0].s == '__main__',
                     ]):
-                        # Ignore main block
+                        # Ignore main block (but not its else branch)
+                        for child in node.orelse:
+                            self.visit(child)
                         return
             except Exception:  # nocover
                 pass
